@@ -17,6 +17,7 @@ CONSTANTS NPar,          \* parity vectors are the subsets of 1..NPar
           DoublePars,    \* parity vectors tried for double relations
           CompletePars,  \* ... for complete relations
           EmitLen,       \* 0 = do not print histories
+          RandomOps,     \* TRUE: one random operation per step (generation of long histories with -simulate)
           EmitRare       \* histories of length EmitLen + 1 are printed too if their last insertion takes one of these branches
 VARIABLES hist, st, allbr
 
@@ -27,7 +28,8 @@ Ops == [k : {"c"}, p : {0}, q : {0}, par : CompletePars]
 
 Init == hist = <<>> /\ st = EmptyStore /\ allbr = {}
 Next == /\ Len(hist) < MaxLen
-        /\ \E op \in Ops : /\ hist' = Append(hist, op)
+        /\ \E op \in (IF RandomOps THEN {RandomElement(Ops)} ELSE Ops) :
+                           /\ hist' = Append(hist, op)
                            /\ st' = StoreAdd(st, op, Len(hist) + 1)
                            /\ allbr' = allbr \cup st'.br
 Spec == Init /\ [][Next]_<<hist, st, allbr>>
